@@ -174,10 +174,18 @@ def describe(req, out, fails):
         if c["elem"] == "RANGE" and c["iv1"] == 2 and (not r3_inferable or "no3d" in req["optrow"]):
             unf = True
     dropped = bool(out) and "model" in out and len(out["model"]["covs"]) < len(req["types"])
+    # a sill item whose structure (by type) is no longer in the returned model
+    sill_on_dropped = False
+    if dropped:
+        kept = [c["type"] for c in out["model"]["covs"]]
+        for c in req["cons"]:
+            t = req["types"][c["icov"]]
+            if c["elem"] == "SILL" and kept.count(t) < req["types"].count(t):
+                sill_on_dropped = True
     rec = {"clause": None, "entry": req["entry"], "nvar": req["nvar"], "multivariate": req["nvar"] > 1, "ndim": ndim,
            "geom": req["geom"], "ndir": ndir, "recipe": req["recipe"], "empty": req["empty"],
            "types": "+".join(req["types"]), "nstruct": len(req["types"]), "consname": req["consname"], "conskinds": "+".join(kinds),
-           "item_on_uninferred_parameter": unf, "structures_dropped": dropped,
+           "item_on_uninferred_parameter": unf, "structures_dropped": dropped, "sill_item_on_discarded_structure": sill_on_dropped,
            "csill": req["csill"] > 0, "optrow": "+".join(sorted(req["optrow"])), "maxiter": req["maxiter"],
            "wmode": req["wmode"], "truth": req["truthname"], "fails": fails}
     rec.update(flips)
@@ -186,6 +194,9 @@ def describe(req, out, fails):
 
 def run(tier):
     ck = Check("C17", "model_checking", tier)
+    if os.environ.get("VERIF_C17_KNOWN"):          # trial runs against a repaired tree: another list of known findings
+        with open(os.environ["VERIF_C17_KNOWN"]) as f:
+            ck.known = [e for e in json.load(f).get("findings", []) if e.get("property") == "C17" and e.get("status") == "known"]
     try:
         return _run(ck, tier)
     except Broken:
